@@ -642,13 +642,25 @@ def script(rng, grammar, n_stmts=(3, 12), **opts):
         c = r.random()
         if ndecl > 0 and c < 0.35:
             ndecl -= 1
+            # now and then a variable is declared again (later statements must see the new value)
+            redo = g.coin(g.o.get("redeclare", 0.15))
             if g.coin(g.o["arrays"]):
                 if g.o["tdm"] and g.coin(0.6):
                     t = g.decl_array(name="p%d" % r.choice([0, 1, 2, 3, 7, 42]), rows=r.choice([1, 1, 2]), param_p=0.0)
                 else:
-                    t = g.decl_array()
+                    old = [n_ for n_ in g.arrays if n_ not in g.it.prog.pnames]
+                    t = g.decl_array(name=r.choice(old)) if redo and old else g.decl_array()
+                    if redo and old and t:
+                        g.tags.add("redeclared-array")
             else:
-                t = g.decl_scalar()
+                old = [n_ for n_, k_ in g.scalars.items() if k_ in ("int", "float", "complex")]
+                if redo and old:
+                    nm_ = r.choice(old)
+                    t = g.decl_scalar(vartype=g.scalars[nm_], name=nm_)
+                    if t:
+                        g.tags.add("redeclared-scalar")
+                else:
+                    t = g.decl_scalar()
             if t:
                 body.extend(t.split("\n"))
             continue
